@@ -628,6 +628,11 @@ func validateTranslator(opt *Options, w *World, results []*ObResult) (int, error
 				if strings.HasPrefix(outcome, "skip:") || outcome == "hugealloc" {
 					continue
 				}
+				// an assumption stated inside a solver-side stub (override) is not seen by the
+				// native run, which links the real function: such vectors are outside the domain
+				if outcome == "assume" && len(w.overrides) > 0 {
+					continue
+				}
 				k++
 				id := fmt.Sprintf("v%d", k)
 				args := r.Ob.Args
